@@ -457,7 +457,7 @@ def register_contains_object(reg):
             room = MeshVolumeRegion(mesh, centerMesh=False)
             for sname, mk, dims in shapes:
                 for x in (0.0, 5.0, 6.5, 8.0, 9.7, 15.0):
-                    for y in (0.0, -5.0):
+                    for y in (0.0, -5.0, 9.5):
                         for seed in range(4 if "ring" in sname else 1):
                             o = Object._with(position=Vector(x, y, 0), shape=mk(), width=dims[0], length=dims[1], height=dims[2])
                             V = numpy.array(o.occupiedSpace.mesh.vertices)
@@ -466,6 +466,9 @@ def register_contains_object(reg):
                             well_inside = plan.buffer(-0.3).contains(hull) and float(numpy.abs(V[:, 2]).max()) < 4.7
                             numpy.random.seed(seed)
                             got = bool(room.containsObject(o))
+                            if got and "ring" not in sname and hull.difference(plan).area > 1e-6:
+                                # a box is convex: its projection is the hull of its vertices, which must lie in the floor plan
+                                return f"{rname}.containsObject({sname} at ({x}, {y}, 0), numpy seed {seed}) is True although {hull.difference(plan).area:.3f} square units of the object's projection lie outside the floor plan (it bridges the notch)"
                             if got and outside:
                                 v = outside[0]
                                 return f"{rname}.containsObject({sname} at ({x}, {y}, 0), numpy seed {seed}) is True although the object's vertex {tuple(round(float(c), 3) for c in v)} lies outside the room"
